@@ -333,6 +333,95 @@ func apiGen(leanDir string) string {
 		}
 		sb.WriteString("  | _ => none\n\n")
 	}
+	// ---- accessors: exported niladic methods with a single return
+	accIdioms := map[string]string{
+		"Publish.QoS|switch { case p.fixed.Has(QoS3): return 3 case p.fixed.Has(QoS1): return 1 case p.fixed.Has(QoS2): return 2 }|return 0":                       ".n p.qos.toNat",
+		"Subscribe.SubscriptionID|if p.subscriptionID == nil { return -1 }|return int(*p.subscriptionID)":                                                                  ".i p.subscriptionIDInt",
+		"Unsubscribe.Filters|res := make([]string, len(p.filters))|for i, v := range p.filters { res[i] = string(v) }|return res":                                       ".strs p.filters",
+	}
+	var untranslatedAcc []string
+	recvsAcc := append(append([]string{}, recvs...), "Undefined")
+	sort.Strings(recvsAcc)
+	for _, recv := range recvsAcc {
+		lean := leanDecRecv[recv]
+		if lean == "" {
+			continue
+		}
+		var names []string
+		for k, fd := range funcs {
+			n := fd.Name.Name
+			if recvName(fd) != recv || !ast.IsExported(n) || fd.Type.Params.NumFields() != 0 || fd.Type.Results.NumFields() != 1 || fd.Body == nil {
+				continue
+			}
+			if n == "String" || n == "WellFormed" || n == "Will" {
+				continue
+			}
+			names = append(names, k)
+		}
+		sort.Strings(names)
+		var ents []string
+		for _, k := range names {
+			fd := funcs[k]
+			var parts []string
+			for _, st := range fd.Body.List {
+				parts = append(parts, srcOf(st))
+			}
+			if v, ok := accIdioms[k+"|"+strings.Join(parts, "|")]; ok {
+				ents = append(ents, fmt.Sprintf("(%s, %s)", leanStr(fd.Name.Name), v))
+				continue
+			}
+			val := ""
+			if len(fd.Body.List) == 1 && len(fd.Recv.List[0].Names) == 1 && fd.Recv.List[0].Names[0].Name == "p" {
+				if rs, ok := fd.Body.List[0].(*ast.ReturnStmt); ok && len(rs.Results) == 1 {
+					e := rs.Results[0]
+					// strip conversions
+					for {
+						ce, ok := e.(*ast.CallExpr)
+						if !ok || len(ce.Args) != 1 {
+							break
+						}
+						if tv, ok := pkg.TypesInfo.Types[ce.Fun]; !ok || !tv.IsType() {
+							break
+						}
+						e = ce.Args[0]
+					}
+					src := exprStr(e)
+					rt := pkg.TypesInfo.TypeOf(fd.Type.Results.List[0].Type)
+					field := strings.HasPrefix(src, "p.") && strings.Count(src, ".") == 1
+					switch rts := rt.String(); {
+					case field && (rts == "uint8" || rts == "uint16" || rts == "uint32" || strings.HasSuffix(rts, ".ReasonCode")):
+						val = ".n " + src + ".toNat"
+					case field && rts == "bool":
+						val = ".b " + src
+					case field && (rts == "string" || rts == "[]byte" || rts == "[]uint8"):
+						val = ".s " + src
+					case field && rts == "[]uint32":
+						val = ".nats (" + src + ".map UInt32.toNat)"
+					case field && strings.HasSuffix(rts, ".TopicFilter") && strings.HasPrefix(rts, "[]"):
+						val = ".filters (" + src + ".map fun f => (f.filter, f.options))"
+					case rts == "bool":
+						if ce, ok := e.(*ast.CallExpr); ok && len(ce.Args) == 1 {
+							if se, ok := ce.Fun.(*ast.SelectorExpr); ok && se.Sel.Name == "Has" {
+								r := exprStr(se.X)
+								if v, okc := constVal(ce.Args[0]); okc && strings.HasPrefix(r, "p.") && strings.Count(r, ".") == 1 {
+									val = fmt.Sprintf(".b (has %s %d)", r, v)
+								}
+							}
+						}
+					}
+				}
+			}
+			if val == "" {
+				untranslatedAcc = append(untranslatedAcc, k)
+				continue
+			}
+			ents = append(ents, fmt.Sprintf("(%s, %s)", leanStr(fd.Name.Name), val))
+		}
+		fmt.Fprintf(&sb, "/-- the exported accessors of `%s`: name and value -/\ndef %s.accessors (p : Mq.%s) : View :=\n  [%s]\n\n", recv, recv, lean, strings.Join(ents, ",\n   "))
+	}
+	sort.Strings(untranslatedAcc)
+	fmt.Fprintf(&sb, "/-- accessors the translator could not render -/\ndef untranslatedAccessors : List String := [%s]\n\n", quoteAll(untranslatedAcc))
+
 	sort.Strings(untranslated)
 	sort.Strings(skipped)
 	fmt.Fprintf(&sb, "/-- setters the translator could not render -/\ndef untranslatedSetters : List String := [%s]\n\n", quoteAll(untranslated))
